@@ -167,6 +167,15 @@ pub fn report(out: &mut Out, prop: &str) {
                     table.insert(format!("{}::{}", group, n), c.to_string());
                 }
                 None => {
+                    // a NEW public fn of an anchored type that nothing outside its own file calls (non-test code)
+                    // cannot reach the property: recorded, not a violation.  Trait fns, message kinds, enum
+                    // variants, config fields and fns WITH callers in other modules stay violations.
+                    let ext = WAL_FN_EXTERNAL_CALLS.iter().find(|(g, f, _)| *g == group && f == n).map(|(_, _, c)| *c);
+                    if ext == Some(0) {
+                        table.insert(format!("{}::{}", group, n), "NEW public fn without a caller outside its own file (non-test code): cannot reach the property; not driven".into());
+                        out.count("coverage:new-pub-fn-without-external-callers");
+                        continue;
+                    }
                     table.insert(format!("{}::{}", group, n), "UNACCOUNTED".into());
                     let kind = match group {
                         "WalMessage" | "GossipMessage" => "message",
